@@ -200,6 +200,25 @@ func BankVMProfile(seed int64, out *Recorder, nOps int) *Chain {
 			who = mvas[rng.Intn(len(mvas))]
 		}
 		ac := c.Accts[who]
+		// with a short unbonding time: now and then a vesting account takes a whole delegation back, so that coins it delegated
+		// while they were locked return to it within the history
+		if seed%3 == 0 && rng2.Intn(10) == 0 {
+			m := mvas[rng2.Intn(len(mvas))]
+			dels := c.App.VerifStakingKeeper().GetAllDelegatorDelegations(c.Ctx(), c.Accts[m].Addr)
+			if len(dels) > 0 {
+				d := dels[rng2.Intn(len(dels))]
+				if v, found := c.App.VerifStakingKeeper().GetValidator(c.Ctx(), d.GetValidatorAddr()); found {
+					amt := v.TokensFromShares(d.Shares).TruncateInt().Int64()
+					if rng2.Intn(2) == 0 {
+						amt = amt/2 + 1
+					}
+					if amt > 0 {
+						c.Do(m, []D{{"t": "staking.undelegate", "del": Hex(c.Accts[m].Addr), "val": Hex(sdk.AccAddress(d.GetValidatorAddr())), "amt": amt}},
+							stakingtypes.NewMsgUndelegate(c.Accts[m].Addr, d.GetValidatorAddr(), sdk.NewInt64Coin(Bond, amt)))
+					}
+				}
+			}
+		}
 		r := rng.Intn(100)
 		switch {
 		case r < 14:
